@@ -684,6 +684,48 @@ def dispatched_types(c, fn, byval):
         for v in vals:
             if v in byval:
                 handled.add(byval[v])
+    # a table of per-type workers indexed by the option's type: an enumerator is handled when its entry names a worker
+    from ..ir import split_top
+    for fn_ in c.deep_funcs(fn):
+        for ins in fn_.instrs():
+            if ins.op != 'getelementptr' or not ins.ops or ins.ops[0].kind != 'global':
+                continue
+            tbl = fn_.module.globals.get(ins.ops[0].name)
+            if not tbl or not tbl.get('const') or not (tbl.get('init') or '').startswith('['):
+                continue
+
+            def from_type(v, depth=0):
+                d = fn_.defs.get(v.name) if v.kind == 'reg' else None
+                if d is None or depth > 4:
+                    # a parameter: the callers pass the type
+                    if v.kind == 'reg' and d is None:
+                        pos = next((k for k, p_ in enumerate(fn_.params) if p_.name == v.name), None)
+                        for g_ in c.confuse.funcs.values():
+                            for call in g_.calls(fn_.name):
+                                if pos is not None and pos < len(call.args):
+                                    a = call.args[pos]
+                                    da = g_.defs.get(a.name) if a.kind == 'reg' else None
+                                    while da is not None and da.op in ('zext', 'sext', 'trunc'):
+                                        da = g_.defs.get(da.ops[0].name) if da.ops[0].kind == 'reg' else None
+                                    if da is not None and da.op == 'load' and da.ops[0].kind == 'reg':
+                                        gg = g_.defs.get(da.ops[0].name)
+                                        if gg is not None and gg.op == 'getelementptr' and gg.srcty.strip() == '%struct.cfg_opt_t' and len(gg.ops) >= 3 \
+                                                and gg.ops[2].kind == 'int' and g_.module.field_name('%struct.cfg_opt_t', gg.ops[2].ival) == 'type':
+                                            return True
+                    return False
+                if d.op in ('zext', 'sext', 'trunc'):
+                    return from_type(d.ops[0], depth + 1)
+                if d.op == 'load' and d.ops[0].kind == 'reg':
+                    g = fn_.defs.get(d.ops[0].name)
+                    return g is not None and g.op == 'getelementptr' and g.srcty.strip() == '%struct.cfg_opt_t' and len(g.ops) >= 3 \
+                        and g.ops[2].kind == 'int' and fn_.module.field_name('%struct.cfg_opt_t', g.ops[2].ival) == 'type'
+                return False
+            if not any(from_type(o) for o in ins.ops[1:]):
+                continue
+            elems = split_top(tbl['init'].strip()[1:-1])
+            for k, el in enumerate(elems):
+                if '@' in el and k in byval:
+                    handled.add(byval[k])
     return handled
 
 
